@@ -1,8 +1,8 @@
 #!/bin/bash
 # developer tool: re-verify every seed (rounds 1 and 2) on the current /repo HEAD and run it against the quick check of its own
 # property (plus extra checks listed in seedextra.txt as SEED:CHECK).  Output: /tmp/seedmatrix.out
-out=/tmp/seedmatrix.out; : > $out
-for d in /tmp/seedkeep/* /tmp/seedkeep2/* /tmp/seedkeep3/*; do
+out=${SEEDOUT:-/tmp/seedmatrix.out}; : > $out
+for d in ${SEEDDIRS:-/tmp/seedkeep/* /tmp/seedkeep2/* /tmp/seedkeep3/*}; do
   n=$(basename $d); p=${n%-*}
   [ -f $d/patch.rebased.diff ] || continue
   v=$(/verif/seedverify.sh $d | head -1)
